@@ -46,7 +46,35 @@ def check(run):
              ('2', 'ul'): ULInt16(''), ('2', 'sl'): SLInt16(''), ('2', 'ub'): UBInt16(''), ('2', 'sb'): SBInt16(''),
              ('4', 'ul'): ULInt32(''), ('4', 'sl'): SLInt32(''), ('4', 'ub'): UBInt32(''), ('4', 'sb'): SBInt32(''),
              ('8', 'ul'): ULInt64(''), ('8', 'sl'): SLInt64(''), ('8', 'ub'): UBInt64(''), ('8', 'sb'): SBInt64('')}
-    i24 = {'le': ULInt24(''), 'be': UBInt24('')}
+    i24 = {'le': [ULInt24('')], 'be': [UBInt24('')]}
+    # the same primitives under the names the library's struct sets give them (DWARFStructs / ELFStructs alias tables):
+    # (width, kind) -> [(alias name, primitive)], every configuration of byte order x format x address size / class
+    from elftools.elf.structs import ELFStructs
+    aliases = {}
+
+    def alias(w, signed, le, name, mk):
+        aliases.setdefault((str(w), ('s' if signed else 'u') + ('l' if le else 'b')), []).append((name, mk('')))
+    for le in (True, False):
+        for fmt in (32, 64):
+            for asz in (4, 8):
+                d = DWARFStructs(little_endian=le, dwarf_format=fmt, address_size=asz)
+                cfg = 'dwarf:%s/%d/%d:' % ('le' if le else 'be', fmt, asz)
+                for w in (1, 2, 4, 8):
+                    alias(w, False, le, cfg + 'Dwarf_uint%d' % (8 * w), getattr(d, 'Dwarf_uint%d' % (8 * w)))
+                    alias(w, True, le, cfg + 'Dwarf_int%d' % (8 * w), getattr(d, 'Dwarf_int%d' % (8 * w)))
+                alias(fmt // 8, False, le, cfg + 'Dwarf_offset', d.Dwarf_offset)
+                alias(fmt // 8, False, le, cfg + 'Dwarf_length', d.Dwarf_length)
+                alias(asz, False, le, cfg + 'Dwarf_target_addr', d.Dwarf_target_addr)
+                if fmt == 32 and asz == 4:
+                    i24['le' if le else 'be'].append(d.Dwarf_uint24(''))
+        for cls in (32, 64):
+            e = ELFStructs(little_endian=le, elfclass=cls)
+            e.create_basic_structs()
+            cfg = 'elf:%s/%d:' % ('le' if le else 'be', cls)
+            for name, w, signed in (('Elf_byte', 1, False), ('Elf_half', 2, False), ('Elf_word', 4, False), ('Elf_word64', 8, False),
+                                    ('Elf_addr', cls // 8, False), ('Elf_offset', cls // 8, False), ('Elf_sword', 4, True),
+                                    ('Elf_xword', cls // 8, False), ('Elf_sxword', cls // 8, True)):
+                alias(w, signed, le, cfg + name, getattr(e, name))
     cstr = CString('')
     st_le = DWARFStructs(little_endian=True, dwarf_format=32, address_size=4)
     st_be = DWARFStructs(little_endian=False, dwarf_format=32, address_size=4)
@@ -105,16 +133,21 @@ def check(run):
                         want = ('trunc', None, None)
                     if got != want:
                         run.mismatch('fix.%s%s' % (k, w), 'w' + w, {'kind': kind, 'inp': inp}, want, got)
+                    for name, aprim in aliases.get((w, k), ()):
+                        got = _run_prim(aprim, data)
+                        if got != want:
+                            run.mismatch('fix.alias', name, {'kind': kind, 'inp': inp, 'alias': name}, want, got)
             elif kind == 'int24':
-                for k, prim in i24.items():
-                    got = _run_prim(prim, data)
-                    if exp['ok']:
-                        nt = True
-                        want = ('ok', exp[k], 3)
-                    else:
-                        want = ('trunc', None, None)
-                    if got != want:
-                        run.mismatch('int24.' + k, 'int24', {'kind': kind, 'inp': inp}, want, got)
+                for k, prims in i24.items():
+                    for j, prim in enumerate(prims):
+                        got = _run_prim(prim, data)
+                        if exp['ok']:
+                            nt = True
+                            want = ('ok', exp[k], 3)
+                        else:
+                            want = ('trunc', None, None)
+                        if got != want:
+                            run.mismatch('int24.' + k, 'int24' if j == 0 else 'Dwarf_uint24', {'kind': kind, 'inp': inp}, want, got)
             elif kind == 'cstr':
                 for p, e in exp.items():
                     pos = int(p)
